@@ -1,4 +1,4 @@
-use indexmap::IndexMap;
+use indexmap::{IndexMap, IndexSet};
 #[cfg(feature = "regex")]
 use regex::Regex;
 use std::io;
@@ -14,6 +14,9 @@ use crate::ip::IpVersionAddrIter;
 pub struct Dns {
     addrs: IpVersionAddrIter,
     names: IndexMap<String, IpAddr>,
+    /// Addresses of registered hosts. A host may be registered by a literal
+    /// address inside the subnet, which must not be handed out to a name.
+    taken: IndexSet<IpAddr>,
 }
 
 /// Converts or resolves to an [`IpAddr`].
@@ -39,7 +42,13 @@ impl Dns {
         Dns {
             addrs,
             names: IndexMap::new(),
+            taken: IndexSet::new(),
         }
+    }
+
+    /// Record that a host is registered at `addr`.
+    pub(crate) fn reserve(&mut self, addr: IpAddr) {
+        self.taken.insert(addr);
     }
 
     pub(crate) fn lookup(&mut self, addr: impl ToIpAddr) -> IpAddr {
@@ -70,9 +79,18 @@ impl ToIpAddr for &str {
             return ipaddr;
         }
 
-        *dns.names
-            .entry(self.to_string())
-            .or_insert_with(|| dns.addrs.next())
+        let Dns {
+            addrs,
+            names,
+            taken,
+        } = dns;
+
+        *names.entry(self.to_string()).or_insert_with(|| loop {
+            let addr = addrs.next();
+            if !taken.contains(&addr) {
+                break addr;
+            }
+        })
     }
 }
 
